@@ -6,6 +6,7 @@ import numpy as np
 from common import STDLIB_AXIOMS_REALS, Run, TranslateError
 import c04
 import c09
+import c11
 import c12
 import ensemble as ens
 
@@ -13,7 +14,7 @@ PID = "C02"
 
 
 def translate():
-    c04.translate(); c12.translate(); c09.translate()
+    c04.translate(); c12.translate(); c09.translate(); c11.translate()
 
 
 def validate(run, tier):
@@ -47,8 +48,59 @@ def validate(run, tier):
             e128, s128 = errs[128]
             if abs(e128) > 6 * s128 + 0.08 and abs(e128) > 0.7 * abs(e32):
                 run.fail("evidence-bias-persists", f"log-evidence error {e32:+.3f} at N=32 and {e128:+.3f} at N=128", cfg=cfg)
-    # half-supported likelihood: evidence must not double-count the warm-up correction (C11) -- end-to-end
+    # half-supported likelihood: the warm-up correction must enter the evidence once (end-to-end view of C11)
+    errs = {}
+    for npart in (32, 128):
+        cfg = dict(clustering=False)
+        res = ens.run_ensemble("half", cfg, R, npart, 7300)
+        what = dict(target="half-supported Gaussian (likelihood zero for x0 < 0)", cfg=cfg, runs=R, n_particles=npart, seeds="7300..")
+        bad = [r for r in res if not r["ok"]]
+        if bad:
+            run.fail("ensemble-run-raises", f"{len(bad)} of {R} runs raised: {bad[0]['err']}", **what)
+            continue
+        run.case(key=("logz-half", npart), nontrivial=True)
+        e, se = ens.stats([r["logz"] for r in res], ens.TARGETS["half"]["logz"])
+        errs[npart] = e
+        run.extra["ensemble"].append(dict(cfg="half-supported", n_particles=npart, logz_err=round(e, 4), se=round(se, 4)))
+        if abs(e) > 6 * se + (0.15 if npart == 32 else 0.08):
+            run.fail("evidence-biased", f"half-supported target, {R} seeds, {npart} particles: mean log-evidence error {e:+.3f} (se {se:.3f})", **what)
+    independence_probe(run)
     run.sample(dict(kind="ensemble", first=run.extra["ensemble"][0]))
+
+
+def independence_probe(run):
+    """Two differently seeded runs with clustering: the global stream right after each training step must differ between the
+    runs (a training step that resets the stream to a constant makes every later resampling/MCMC draw common to all runs)."""
+    import warnings
+    from tempest import Sampler
+    import tempest.steps.train as tr
+    prints = {}
+    orig = tr.Trainer.run
+
+    for sd in (11, 12):
+        rec = []
+
+        def wrapped(self, weights, _rec=rec):
+            out = orig(self, weights)
+            if self.state.get_current("beta") > 0:
+                st = np.random.get_state()
+                _rec.append((int(st[2]), tuple(int(v) for v in st[1][:8])))
+            return out
+        tr.Trainer.run = wrapped
+        try:
+            with warnings.catch_warnings():
+                warnings.simplefilter("ignore")
+                s = Sampler(ens.pt, ens.ll_interior, n_dim=2, n_particles=24, random_state=sd, clustering=True)
+                s.run(n_total=48, progress=False)
+        finally:
+            tr.Trainer.run = orig
+        prints[sd] = rec
+    run.case(key=("independence", 11, 12), nontrivial=len(prints[11]) > 1)
+    common = set(prints[11]) & set(prints[12])
+    if common or len(set(prints[11])) < len(prints[11]):
+        run.fail("stream-reset-to-constant", f"after {len(common)} training steps the global NumPy stream is in the same state in runs "
+                 f"seeded 11 and 12 (and repeats within a run: {len(prints[11]) - len(set(prints[11]))}): later draws are common to all runs",
+                 seeds=[11, 12], cfg=dict(clustering=True, n_particles=24))
 
 
 def main(tier, seed):
@@ -68,6 +120,7 @@ def main(tier, seed):
     except TranslateError as e:
         run.obligation("translate:all generated pieces used by C02", False, str(e))
     run.prove("Props/C02.v", link_rels=["Link/MIS.v", "Link/Posterior.v", "Link/Seeding.v"], allowed_axioms=STDLIB_AXIOMS_REALS)
+    run.prove("Props/C02W.v", link_rels=["Link/Warmup.v"])
     try:
         validate(run, tier)
     except Exception:
